@@ -7,7 +7,7 @@ STRANDS_ALL = ["+", "-", "."]
 
 @st.composite
 def layout(draw, max_k=5, allow_empty=True, allow_adjacent=True, allow_overlap=False, max_len=8, max_gap=6,
-           max_start=6, min_k=1):
+           max_start=6, min_k=1, allow_nested=False):
     """Constructive block layout: ascending list of [start, end].
     Non-empty blocks have strictly increasing starts and strictly increasing ends (staggered overlaps only).
     Empty blocks (when allowed) are placed at coordinates not strictly inside a non-empty block
@@ -32,6 +32,12 @@ def layout(draw, max_k=5, allow_empty=True, allow_adjacent=True, allow_overlap=F
                 s = prev_s + 1
         e = s + draw(st.integers(1, max_len))
         if prev_e is not None and e <= prev_e:
+            if allow_nested and draw(st.booleans()):
+                # nested block (contained in the previous one, possibly sharing its start or end)
+                if draw(st.integers(0, 3)) == 0:
+                    s = prev_s
+                blocks.append([s, e])
+                continue
             e = prev_e + 1
         blocks.append([s, e])
         prev_s, prev_e = s, e
@@ -94,8 +100,10 @@ def cds_spec(draw, max_k=5, frameshift_prob=4, ambiguous_prob=6, max_len=10, pad
     frames = rm.frames_from_offset(blocks, strand, offset)
     shifted = False
     if len(blocks) > 1 and draw(st.integers(0, frameshift_prob - 1)) == 0:
-        i = draw(st.integers(0, len(blocks) - 1))
-        frames[i] = (frames[i] + draw(st.sampled_from([1, 2]))) % 3
+        # one, sometimes two programmed frameshifts
+        for _ in range(draw(st.sampled_from([1, 1, 2]))):
+            i = draw(st.integers(0, len(blocks) - 1))
+            frames[i] = (frames[i] + draw(st.sampled_from([1, 2]))) % 3
         shifted = True
     n = blocks[-1][1] + draw(st.integers(0, pad))
     alphabet = "ACGT"
@@ -125,7 +133,7 @@ def simple_qualifiers(draw, max_keys=3):
 
 @st.composite
 def transcript_spec(draw, max_exons=5, coding=None, max_len=10, zero_gap_cds=True, strand=None, start_min=0, start_max=8,
-                    frameshift_prob=8, with_ids=True, qualifiers=True):
+                    frameshift_prob=8, with_ids=True, qualifiers=True, cds_gap_prob=0):
     """exon layout + optional CDS chosen as a contiguous run [i,j) in transcript coordinates (boundary-biased)"""
     from harness import refmodel as rm
 
@@ -176,6 +184,16 @@ def transcript_spec(draw, max_exons=5, coding=None, max_len=10, zero_gap_cds=Tru
                 b = cds_blocks[k]
                 cut = draw(st.integers(b[0] + 1, b[1] - 1))
                 cds_blocks[k:k + 1] = [[b[0], cut], [cut, b[1]]]
+        gapped = False
+        if cds_gap_prob and draw(st.integers(0, cds_gap_prob - 1)) == 0:
+            # +1 programmed frameshift as BioCantor documents it: one base *inside an exon* is skipped by the CDS
+            cand = [k for k, b in enumerate(cds_blocks) if b[1] - b[0] >= 3]
+            if cand:
+                k = draw(st.sampled_from(cand))
+                b = cds_blocks[k]
+                m = draw(st.integers(b[0] + 1, b[1] - 2))
+                cds_blocks[k:k + 1] = [[b[0], m], [m + 1, b[1]]]
+                gapped = True
         offset = draw(st.sampled_from([0, 0, 0, 1, 2]))
         frames = rm.frames_from_offset(cds_blocks, strand, offset)
         fs = False
@@ -184,6 +202,8 @@ def transcript_spec(draw, max_exons=5, coding=None, max_len=10, zero_gap_cds=Tru
             frames[k] = (frames[k] + draw(st.sampled_from([1, 2]))) % 3
             fs = True
         sp.update({"cds": cds_blocks, "frames": frames, "offset": offset, "frameshift": fs, "cds_i": i, "cds_j": j})
+        if gapped:
+            sp["cds_gapped"] = True
     if with_ids:
         sp["transcript_id"] = draw(st.one_of(st.none(), IDENT))
         sp["transcript_symbol"] = draw(st.one_of(st.none(), IDENT))
